@@ -61,14 +61,15 @@ fn quiet<R>(f: impl FnOnce() -> R) -> R {
 ///  sys_lin   F_i = a_i (z_i - r_i) + sum_j b_ij (z_j - r_j)
 ///  perm      (systems) the equations are listed in the order perm: output row i is equation perm[i] (same root, same Newton
 ///            iterates in exact arithmetic; the Jacobian is then NOT diagonally dominant as listed: the linear solve must pivot)
-pub struct Fam { name: String, n: usize, cx: bool, s: Cmplx, r: Vec<Cmplx>, a: Vec<Cmplx>, b: Vec<Cmplx>, k: Vec<Cmplx>, perm: Vec<usize> }
+pub struct Fam { name: String, n: usize, cx: bool, s: Cmplx, r: Vec<Cmplx>, a: Vec<Cmplx>, b: Vec<Cmplx>, k: Vec<Cmplx>, perm: Vec<usize>, nest: Option<Level> }
 impl Fam {
     fn from(case: &Value) -> Fam {
         let v = gets(case, "variant");
         let g = |key: &str| case.get(key).map(cvec_from).unwrap_or_default();
         Fam { name: gets(case, "fam").to_string(), n: getu(case, "n"), cx: matches!(v, "cx" | "cvec" | "cvecj"),
               s: g("s").first().copied().unwrap_or(c(1.0, 0.0)), r: g("r"), a: g("a"), b: g("b"), k: g("k"),
-              perm: case.get("perm").map(|p| ivec(p).iter().map(|x| *x as usize).collect()).unwrap_or_default() }
+              perm: case.get("perm").map(|p| ivec(p).iter().map(|x| *x as usize).collect()).unwrap_or_default(),
+              nest: case.get("nest").filter(|v| v.is_object()).map(Level::from) }
     }
     fn scalar(&self, z: Cmplx) -> Cmplx {
         match self.name.as_str() {
@@ -83,6 +84,7 @@ impl Fam {
             "nan" => c(NAN, if self.cx { NAN } else { 0.0 }),
             "const" => self.k[0],
             "slow" => z * z,
+            "nest" => { let l = self.nest.as_ref().unwrap(); l.g(&[z])[0] - l.base(&l.star)[0] }
             other => { eprintln!("TOOL-ERROR unknown scalar family {}", other); std::process::exit(2) }
         }
     }
@@ -92,6 +94,7 @@ impl Fam {
     }
     fn system(&self, z: &[Cmplx]) -> Vec<Cmplx> {
         let n = self.n;
+        if self.name == "nest" { let l = self.nest.as_ref().unwrap(); let g = l.g(z); let g0 = l.base(&l.star); return (0..n).map(|i| g[i] - g0[i]).collect(); }
         let v: Vec<Cmplx> = (0..n).map(|i| match self.name.as_str() {
             "sys_sin" => { let mut s = self.a[i] * z[i]; for j in 0..n { s = s + self.b[i * n + j] * csin(z[j]); } s + self.k[i] }
             "sys_sq" => { let mut s = self.a[i] * z[i]; for j in 0..n { s = s + self.b[i * n + j] * z[j] * z[j]; } s + self.k[i] }
@@ -122,6 +125,62 @@ impl Fam {
             };
         } }
         self.rows(m, n)
+    }
+}
+
+// ------------------------------------------------------------------ nested / re-entrant use: functions defined through Newton solves
+/// One level of a nested family.  G(u)_i = a_i u_i + sum_j b_ij sin u_j + c_i (w(u)_{i mod n'} - w*_{i mod n'}), where w(u) in C^{n'} is the
+/// solution - computed by a REAL ohsl Newton solve of kind `kind`, inside the user function - of the child level's equation
+/// G'(w) = G'(w*) + P u - P u*  ((P u)_l = u_{l mod n}),  so that w(u*) = w* exactly and every constant is known in closed form.
+/// `fixed`: the child's right-hand side does not depend on u (w = w* throughout; used for a real solve inside a complex function).
+/// The outer function is F(x) = G_0(x) - G_0(x*), G_0(x*) = a x* + b sin x*: smooth, simple root x*, diagonally dominant Jacobian
+/// (|a_i| - gs sum_j |b_ij| - |c_i| / gap' >= gap), whatever the function does internally.
+pub struct Level { n: usize, kind: String, a: Vec<Cmplx>, b: Vec<Cmplx>, c: Vec<Cmplx>, star: Vec<Cmplx>, fixed: bool, child: Option<Box<Level>> }
+thread_local! { static ON_THREAD: std::cell::Cell<bool> = std::cell::Cell::new(false); }
+impl Level {
+    fn from(v: &Value) -> Level {
+        Level { n: getu(v, "n"), kind: gets(v, "kind").to_string(), a: cvec_from(&v["a"]), b: cvec_from(&v["b"]), c: cvec_from(&v["c"]), star: cvec_from(&v["star"]),
+                fixed: v["fixed"].as_bool().unwrap_or(false), child: v.get("child").filter(|c| c.is_object()).map(|c| Box::new(Level::from(c))) }
+    }
+    fn is_real(&self) -> bool { matches!(self.kind.as_str(), "f64" | "vec" | "vecj") }
+    /// the closed-form part a u + b sin u
+    fn base(&self, u: &[Cmplx]) -> Vec<Cmplx> { let n = self.n; (0..n).map(|i| { let mut s = self.a[i] * u[i]; for j in 0..n { s = s + self.b[i * n + j] * csin(u[j]); } s }).collect() }
+    /// G(u): the closed-form part plus the coupling to the child's solution (a Newton solve per evaluation)
+    fn g(&self, u: &[Cmplx]) -> Vec<Cmplx> {
+        let mut r = self.base(u);
+        if let Some(ch) = &self.child {
+            let w = if ON_THREAD.with(|f| f.get()) {
+                // the same inner solve, carried out on a second thread while this thread is in the middle of its own solve
+                std::thread::scope(|s| s.spawn(|| ch.solve_for(u, &self.star, self.fixed)).join().unwrap_or_else(|_| vec![c(NAN, NAN); ch.n]))
+            } else { ch.solve_for(u, &self.star, self.fixed) };
+            for i in 0..self.n { let l = i % ch.n; let d = w[l] - ch.star[l]; r[i] = r[i] + self.c[i] * if self.is_real() { c(d.real, 0.0) } else { d }; }
+        }
+        r
+    }
+    /// solve G(w) = G(w*) + P u - P u* with the ohsl solver `kind`, from the first-order guess w* + (rhs - rhs*) / a
+    fn solve_for(&self, u: &[Cmplx], ustar: &[Cmplx], fixed: bool) -> Vec<Cmplx> {
+        let n = self.n; let pn = u.len();
+        let shift: Vec<Cmplx> = (0..n).map(|l| if fixed { c(0.0, 0.0) } else { let d = u[l % pn] - ustar[l % pn]; if self.is_real() { c(d.real, 0.0) } else { d } }).collect();
+        let g0 = self.base(&self.star);
+        // (a fixed right-hand side would make the guess the solution itself: start 0.2 away so that the solve does real work)
+        let guess: Vec<Cmplx> = (0..n).map(|l| self.star[l] + shift[l] / self.a[l] + c(if fixed { 0.2 } else { 0.0 }, 0.0)).collect();
+        let h = |w: &[Cmplx]| -> Vec<Cmplx> { let g = self.g(w); (0..n).map(|l| g[l] - g0[l] - shift[l]).collect() };
+        let hj = |w: &[Cmplx]| -> Vec<Cmplx> { let mut m = vec![c(0.0, 0.0); n * n]; for i in 0..n { for j in 0..n { m[i * n + j] = self.b[i * n + j] * ccos(w[j]) + if i == j { self.a[i] } else { c(0.0, 0.0) }; } } m };
+        let take = |r: Result<Vec<Cmplx>, Vec<Cmplx>>| match r { Ok(v) => v, Err(v) => v };
+        match self.kind.as_str() {
+            "f64" => { let mut o = Newton::<f64>::new(guess[0].real); o.tolerance(1.0e-13); o.iterations(50);
+                       let r = o.solve(&|x: f64| h(&[c(x, 0.0)])[0].real); vec![c(match r { Ok(v) => v, Err(v) => v }, 0.0)] }
+            "cx" => { let mut o = Newton::<Cmplx>::new(guess[0]); o.tolerance(1.0e-13); o.iterations(50);
+                      let r = quiet(|| o.solve(&|z: Cmplx| h(&[z])[0])); vec![match r { Ok(v) => v, Err(v) => v }] }
+            "vec" | "vecj" => { let mut o = Newton::<Vec64>::new(to_vec64(&guess)); o.tolerance(1.0e-13); o.iterations(50);
+                      let f = |x: Vec64| to_vec64(&h(&from_vec64(&x))); let j = |x: Vec64| to_mat64(&hj(&from_vec64(&x)), n);
+                      let r = if self.kind == "vecj" { o.solve_jacobian(&f, &j) } else { o.solve(&f) };
+                      take(r.map(|x| from_vec64(&x)).map_err(|x| from_vec64(&x))) }
+            _ => { let mut o = Newton::<Vector<Cmplx>>::new(Vector::<Cmplx>::create(guess.clone())); o.tolerance(1.0e-13); o.iterations(50);
+                      let f = |z: Vector<Cmplx>| Vector::<Cmplx>::create(h(&z.vec)); let j = |z: Vector<Cmplx>| to_cmat(&hj(&z.vec), n);
+                      let r = if self.kind == "cvecj" { o.solve_jacobian(&f, &j) } else { o.solve(&f) };
+                      take(r.map(|x| x.vec.clone()).map_err(|x| x.vec.clone())) }
+        }
     }
 }
 
@@ -261,7 +320,11 @@ pub fn exec(case0: &Value, out: &mut Out) {
             if call == 3 { cfg.limit += 1; nw.set_limit(cfg.limit); }
             // model cases: the verdict is the model's closed form for THIS call's limit (criterion first met at step R)
             let exp_call = match case.get("R").and_then(|r| r.as_i64()) { Some(r) => if r >= 1 && r <= cfg.limit as i64 { "ok".to_string() } else { "err".to_string() }, None => expect.clone() };
+            // "thr": during call 2 every inner solve of a nested function runs on a second thread while this thread is mid-solve;
+            // call 2 must still be bit-identical to call 1
+            ON_THREAD.with(|f| f.set(call == 2 && case["thr"].as_bool().unwrap_or(false)));
             one_solve(out, &x, call, &nw, &cfg, &exp_call);
+            ON_THREAD.with(|f| f.set(false));
         },
         // solve, reconfigure through the setters (any order / combination), solve again; then a FRESH object with the final configuration
         "seq" => {
@@ -412,6 +475,47 @@ fn special_case(rng: &mut StdRng, v: &str, n: usize, mode: usize) -> Value {
     k
 }
 
+// ------------------------------------------------------------------ generation of nested families
+fn kind_cx(kind: &str) -> bool { matches!(kind, "cx" | "cvec" | "cvecj") }
+/// one level; `child` = (level, gap, Lipschitz bound) of the level below.  Returns (level, gap, L): |a_i| - gs sum|b_ij| - |c_i|/gap' >= gap,
+/// L bounds the Lipschitz constant of the Jacobian (gs = 1.3 >= sup |cos|, |sin| on the complex strip |Im| <= 0.6, 1 on the reals)
+fn make_level(rng: &mut StdRng, kind: &str, n: usize, child: Option<(Value, f64, f64)>, gap_target: f64, fixed_child: bool) -> (Value, f64, f64) {
+    let cx = kind_cx(kind); let gs = if cx { 1.3 } else { 1.0 };
+    let rz = |rng: &mut StdRng, m: f64| -> Cmplx { if cx { unit_dir(rng, true) * unif(rng, 0.0, m) } else { c(unif(rng, -m, m), 0.0) } };
+    let b: Vec<Cmplx> = (0..n * n).map(|_| if rng.gen_bool(0.2) { c(0.0, 0.0) } else { rz(rng, 0.5 / n as f64) }).collect();
+    let rows: Vec<f64> = (0..n).map(|i| gs * (0..n).map(|j| b[i * n + j].abs()).sum::<f64>()).collect();
+    let (cc, cterm, lpsi): (Vec<Cmplx>, Vec<f64>, f64) = match &child {
+        Some((_, g, l)) => { let cc: Vec<Cmplx> = (0..n).map(|_| unit_dir(rng, cx) * unif(rng, 0.3, 1.0)).collect(); let ct = cc.iter().map(|z| z.abs() / g).collect(); (cc, ct, l / (g * g * g)) }
+        None => (vec![c(0.0, 0.0); n], vec![0.0; n], 0.0) };
+    let a: Vec<Cmplx> = (0..n).map(|i| unit_dir(rng, cx) * (gap_target + rows[i] + cterm[i] + unif(rng, 0.0, 1.0))).collect();
+    let gap = (0..n).map(|i| a[i].abs() - rows[i] - cterm[i]).fold(f64::INFINITY, f64::min);
+    let lip = rows.iter().cloned().fold(0.0, f64::max) + cc.iter().map(|z| z.abs()).fold(0.0, f64::max) * lpsi;
+    let star: Vec<Cmplx> = (0..n).map(|_| c(unif(rng, -1.5, 1.5), if cx { unif(rng, -0.3, 0.3) } else { 0.0 })).collect();
+    let mut v = json!({"n": n, "kind": kind, "a": jcvec(&a), "b": jcvec(&b), "c": jcvec(&cc), "star": jcvec(&star), "fixed": fixed_child});
+    if let Some((ch, _, _)) = child { v["child"] = ch; }
+    (v, gap, lip)
+}
+/// a nested case: outer variant `outer` (finite-difference system or scalar solver) of size n whose function solves a `ckind` system of
+/// size cn per evaluation; `gkind`: a further level below that (the child's function itself calls a solver)
+fn nested_case(rng: &mut StdRng, outer: &str, n: usize, ckind: &str, cn: usize, gkind: Option<(&str, usize)>, thr: bool) -> Value {
+    let ocx = kind_cx(outer);
+    let grand = gkind.map(|(k, m)| make_level(rng, k, m, None, 2.0, false));
+    // a real solve below a complex function cannot take the complex argument: its right-hand side is fixed
+    let gfixed = gkind.map(|(k, _)| !kind_cx(k) && kind_cx(ckind)).unwrap_or(false);
+    let child = make_level(rng, ckind, cn, grand, 2.0, gfixed);
+    let cfixed = !kind_cx(ckind) && ocx;
+    let gt = 1.05 + unif(rng, 0.0, 1.0);
+    let (lv, gap, lip) = make_level(rng, outer, n, Some(child), gt, cfixed);
+    let rad = 0.999 * (if ocx { 0.3f64 } else { 1.0 }).min(if lip > 0.0 { gap / (2.0 * lip) } else { 1.0 });
+    let root = cvec_from(&lv["star"]);
+    let u = if rng.gen_bool(0.15) { 0.999 } else { unif(rng, 0.0, 0.999) };
+    let guess: Vec<Cmplx> = root.iter().map(|z| *z + unit_dir(rng, ocx) * (u * rad * unif(rng, 0.3, 1.0))).collect();
+    let limit = if rng.gen_bool(0.85) { rng.gen_range(NEED..=30) } else { rng.gen_range(1..NEED) };
+    json!({"fam": "nest", "nest": lv, "variant": outer, "n": n, "tol": jhex(pick_tol(rng).max(1.0e-11)), "delta": jhex(pick_delta(rng)), "limit": limit, "thr": thr,
+           "guess": jcvec(&guess), "root": jcvec(&root), "basin": true, "rad": jhex(rad), "expect": if limit >= NEED { "ok" } else { "any" },
+           "shape": format!("{}{} <- {}{}{}", outer, n, ckind, cn, gkind.map(|(k, m)| format!(" <- {}{}", k, m)).unwrap_or_default())})
+}
+
 /// Systems whose Jacobians have exact structural zeros in a prescribed arrangement (the dense Gaussian elimination
 /// behind the system variants must eliminate PAST a zero multiplier / search pivots PAST a zero entry), with coupling
 /// close to the dominance limit: per row sup|g'| * sum_j |b_ij| = rho * |a_i|, rho in {0.95, 0.9, 0.8}, scaled so that the
@@ -482,6 +586,20 @@ pub fn gen(tier: &str, seed: u64, out: &mut Out) {
         if sys && n >= 2 && rng.gen_bool(0.25) { k["perm"] = json!(rand_perm(&mut rng, n)); }
         push(out, k);
     } }
+    // (a6) nested / re-entrant use: the user function solves a Newton problem per evaluation (inner size equal / smaller / larger,
+    //      scalar in system, system in scalar, complex in real, real in complex, user-Jacobian inner, two levels deep); half of the cases
+    //      run the inner solves of call 2 on a second thread while the first is mid-solve
+    for rep in 0..(if quick { 1 } else { 6 }) {
+        let mut list: Vec<(&str, usize, &str, usize, Option<(&str, usize)>)> = vec![];
+        for (o, k) in [("vec", "vec"), ("cvec", "cvec")] { for n in 1..=3usize { for cn in 1..=3usize { list.push((o, n, k, cn, None)); } } }
+        list.extend([("vec", 2, "f64", 1, None), ("vec", 3, "cx", 1, None), ("cvec", 2, "cx", 1, None), ("cvec", 2, "f64", 1, None),
+                     ("f64", 1, "vec", 2, None), ("f64", 1, "vec", 1, None), ("f64", 1, "cvec", 2, None), ("f64", 1, "f64", 1, None), ("cx", 1, "cvec", 3, None), ("cx", 1, "vec", 2, None), ("cx", 1, "cx", 1, None),
+                     ("vec", 2, "cvec", 2, None), ("vec", 3, "cvec", 2, None), ("cvec", 2, "vec", 2, None), ("cvec", 3, "vec", 1, None),
+                     ("vec", 2, "vecj", 2, None), ("vec", 2, "vecj", 3, None), ("cvec", 2, "cvecj", 2, None),
+                     ("vec", 2, "vec", 2, Some(("vec", 2))), ("vec", 2, "vec", 3, Some(("vec", 1))), ("vec", 2, "vecj", 2, Some(("vec", 2))), ("vec", 2, "cvec", 2, Some(("vec", 2))),
+                     ("cvec", 2, "cvec", 2, Some(("cvec", 2))), ("cvec", 2, "cvec", 1, Some(("vec", 2))), ("f64", 1, "vec", 2, Some(("vec", 2))), ("vec", 3, "f64", 1, Some(("vec", 3)))]);
+        for (q, (o, n, k, cn, g)) in list.into_iter().enumerate() { let k = nested_case(&mut rng, o, n, k, cn, g, (q + rep) % 2 == 1); push(out, k); }
+    }
     // (a5) special values: roots and / or guesses with components exactly -1, 0, -0, 1, +-2^k, all equal, guess = root; every variant
     for _ in 0..(if quick { 3 } else { 30 }) { for v in VARIANTS { for mode in 0..4usize {
         let sys = !matches!(v, "f64" | "cx");
